@@ -116,11 +116,11 @@ def selfcheck_basis_table() -> None:
 # API entry points per (type, role).  "name:variant".
 APIS = {
     ("K", "create"): ["create_keep", "create_keep_with_info", "create:K", "create_context", "create_context:sequential",
-                      "create_keep:sequential"],
+                      "create_keep:sequential", "create_keep:post"],
     ("M", "create"): ["create_measure", "create:M"],
     ("R", "create"): ["create_rsp", "create:R"],
     ("K", "recv"): ["recv_keep", "recv_keep_with_info", "recv:K", "recv_context", "recv_context:sequential",
-                    "recv_keep:sequential"],
+                    "recv_keep:sequential", "recv_keep:post"],
     ("M", "recv"): ["recv_measure", "recv:M"],
     ("R", "recv"): ["recv_rsp", "recv_rsp_with_info", "recv:R"],
 }
@@ -241,6 +241,9 @@ def call_api(es, conn, case) -> Dict[str, Any]:
 
         getattr(es, name)(post_routine=post, sequential=True, **kw)
         h["outcomes"] = outcomes
+    elif variant == "post" and name in ("create_keep", "recv_keep"):
+        # non-sequential request with a post routine that keeps its qubits (a failed min-fidelity try must give them back)
+        h["qubits"] = getattr(es, name)(post_routine=lambda _c, q, pair: q.H(), sequential=False, **kw)
     elif name in ("create_context", "recv_context"):
         n = kw.get("number", 1)
         outcomes = conn.new_array(n)
@@ -612,7 +615,7 @@ def request_cases(T: str, role: str, api: str, tier: str) -> List[Dict[str, Any]
         if T == "K":
             for b in full:
                 cases.append(mk(b, {}))
-            if api == "create_keep":
+            if api in ("create_keep", "create_keep:post"):
                 for b in (full if thorough else few):
                     for lp in LOOPS[1:]:
                         for ff in (False, True):
@@ -653,7 +656,8 @@ def request_cases(T: str, role: str, api: str, tier: str) -> List[Dict[str, Any]
     else:
         pts = [{"number": n, "socket": s, "remote": r} for n, s, r in itertools.product(NUMBERS, SOCKETS, REMOTES)]
         takes_phi = name in ("recv_keep", "recv_keep_with_info", "recv_measure", "recv_rsp", "recv_rsp_with_info")
-        takes_loop = name in ("recv_keep", "recv_keep_with_info", "recv_rsp", "recv_rsp_with_info") and variant == ""
+        takes_loop = (name in ("recv_keep", "recv_keep_with_info", "recv_rsp", "recv_rsp_with_info") and variant == "") or \
+            api == "recv_keep:post"
         for b in pts:
             for phi in ((None, True, False) if takes_phi else (None,)):
                 extra = {} if phi is None else {"expect_phi_plus": phi}
